@@ -24,8 +24,18 @@ def dfield(f):
 def ceil_div_of(fn, F, M, v, xpat, bspat):
     """v is ceil(x / bs) for x matching xpat and bs matching bspat, in either spelling:
          (x + bs - 1) / bs            or            x / bs  (+ 1 exactly when x % bs != 0)"""
-    one = ("bin", "udiv", ("bin", "sub", ("bin", "add", xpat, ("bind", "bs", bspat)), 1), ("bind", "bs"))
-    if M.match(one, v, {}) is not None:
+    one = ("bin", "udiv", ("bin", "sub", ("bin", "add", ("bind", "x", xpat), ("bind", "bs", bspat)), 1), ("bind", "bs"))
+    e1 = M.match(one, v, {})
+    if e1 is not None:
+        # ... computed at the width of x: `(unsigned int) (x + bs - 1) / bs` divides the low 32 bits of the sum (a cast that binds to the sum, not to
+        # the quotient), which is a different number from 4 GiB on
+        dv = fn.defn(M.strip(v))
+        xd = fn.defn(M.strip(e1["x"], ("bitcast",)))
+        xw = (fn.mod.int_bits(xd.ty) if xd is not None else None) or 64
+        if dv is not None and not dv.is_param and dv.op == "udiv":
+            w_, _ = min_width_through_casts(fn, dv.ops[0])
+            if w_ is not None and w_ < xw:
+                return False
         return True
     srcs = F.sources(v)
     if len(srcs) != 2:
@@ -303,8 +313,7 @@ def run(tier, seed):
             M = Matcher(mo)
             sts = stores_to_field(mod, DEC, "total_blocks", [mo])
             tot = ("bin", "udiv", ("bin", "sub", ("bin", "add", dfield("stream_length"), ("bind", "bs", ("load", ("field", DT, "block_size", dfield("dtype"))))), 1), ("bind", "bs"))
-            okt = len(sts) == 1 and (M.match(tot, sts[0].ops[0], {}) is not None or
-                                     ceil_div_of(mo, ctx.facts(mo), M, sts[0].ops[0], dfield("stream_length"), ("load", ("field", DT, "block_size", dfield("dtype")))))
+            okt = len(sts) == 1 and ceil_div_of(mo, ctx.facts(mo), M, sts[0].ops[0], dfield("stream_length"), ("load", ("field", DT, "block_size", dfield("dtype"))))
             rep.check(rid, okt, "total_blocks = ceil(stream_length / block_size)", mo.file, None, function=mo.cname, obj="total")
             rep.check(rid, len(list(mo.calls("check_progress_callback"))) == 1, "attaching a monitor reports block 0 at once", mo.file, None, function=mo.cname, obj="initial")
         # last_block starts at UINT_MAX so that the first increment announces block 0
